@@ -8,6 +8,7 @@ import (
 	"net"
 	"sort"
 	"strings"
+	"sync"
 	"testing/synctest"
 
 	"github.com/codelaboratoryltd/bng/pkg/allocator"
@@ -23,6 +24,7 @@ var errInjected = errors.New("injected store failure")
 // ---------------- fake ordered allocator.Store with "fail the i-th call" ----------------
 
 type FakeStore struct {
+	mu     sync.Mutex // plain mutex (never held across a scheduling point): makes the store usable by the free-running -race pass
 	data   map[string][]byte
 	failIn int // >0: the failIn-th call from now fails (and has no effect)
 	fired  int // number of injected failures so far
@@ -46,6 +48,8 @@ func (f *FakeStore) fail(call string) bool {
 }
 
 func (f *FakeStore) Get(ctx context.Context, key string) ([]byte, error) {
+	f.mu.Lock()
+	defer f.mu.Unlock()
 	if f.fail("Get") {
 		return nil, errInjected
 	}
@@ -55,6 +59,8 @@ func (f *FakeStore) Get(ctx context.Context, key string) ([]byte, error) {
 	return nil, errors.New("not found")
 }
 func (f *FakeStore) Put(ctx context.Context, key string, value []byte) error {
+	f.mu.Lock()
+	defer f.mu.Unlock()
 	if f.fail("Put") {
 		return errInjected
 	}
@@ -62,6 +68,8 @@ func (f *FakeStore) Put(ctx context.Context, key string, value []byte) error {
 	return nil
 }
 func (f *FakeStore) Delete(ctx context.Context, key string) error {
+	f.mu.Lock()
+	defer f.mu.Unlock()
 	if f.fail("Delete") {
 		return errInjected
 	}
@@ -69,6 +77,8 @@ func (f *FakeStore) Delete(ctx context.Context, key string) error {
 	return nil
 }
 func (f *FakeStore) Query(ctx context.Context, prefix string) ([]allocator.KeyValue, error) {
+	f.mu.Lock()
+	defer f.mu.Unlock()
 	if f.fail("Query") {
 		return nil, errInjected
 	}
@@ -91,13 +101,18 @@ func (f *FakeStore) Watch(prefix string, cb func(key string, value []byte, delet
 
 // RemoteApply installs a record written by another node and notifies the watcher.
 func (f *FakeStore) RemoteApply(key string, value []byte) {
+	f.mu.Lock()
 	f.data[key] = value
-	if f.watch != nil {
-		f.watch(key, value, false)
+	w := f.watch
+	f.mu.Unlock()
+	if w != nil {
+		w(key, value, false)
 	}
 }
 
 func (f *FakeStore) String() string {
+	f.mu.Lock()
+	defer f.mu.Unlock()
 	var ks []string
 	for k := range f.data {
 		ks = append(ks, k)
